@@ -196,6 +196,7 @@ HStepCore(d, h, prev, step) ==
                          !.pauseCause = (@ \/ c.st \in {"pausing", "paused"}) /\ c.st \notin {"resuming", "running"},
                          !.cancelReq = @ \/ c.st \in {"canceling", "canceled"},
                          !.doomed    = @ \/ c.st = "failed"]
+    [] c.op \in {"start", "report"} /\ c.task \notin TaskNames(d) -> h0   \* an engine command offered as a task (C01_offer_known)
     [] c.op = "start" ->
          IF IsNewExec(prev, step)
          THEN [h0 EXCEPT !.tok[c.task]   = IF @ > 0 THEN @ - 1 ELSE 0,
@@ -559,7 +560,7 @@ C12_empty(d, prev, step) ==
      RecSt(step.obs, step.call.task, step.call.route) = "succeeded"
 
 (* C13: retry. *)
-RetryCount(d, t) == IF d.tasks[t].retry.on THEN d.tasks[t].retry.count ELSE IF RetryCmd(d, t) THEN 3 ELSE 0
+RetryCount(d, t) == IF t \notin TaskNames(d) THEN 0 ELSE IF d.tasks[t].retry.on THEN d.tasks[t].retry.count ELSE IF RetryCmd(d, t) THEN 3 ELSE 0
 RetryWhenOf(d, t) ==
   IF d.tasks[t].retry.on THEN d.tasks[t].retry.when
   ELSE LET i == CHOOSE i \in 1..Len(d.tasks[t].next) :
@@ -574,7 +575,7 @@ AttemptStatus(d, h1, step) ==                        \* status of the attempt th
 C13_bound(d, h1, prev, step) ==
   IsNewExec(prev, step) => AttOf(h1, Rid(step.call.task, step.call.route)) <= RetryCount(d, step.call.task) + 1
 C13_cond(d, h1, prev, step) ==
-  IsRetried(prev, step) =>
+  (IsRetried(prev, step) /\ step.call.task \in TaskNames(d)) =>
      LET t  == step.call.task
          st == AttemptStatus(d, h1, step)
          w  == RetryWhenOf(d, t)
@@ -626,8 +627,9 @@ SeqId(obs) == [i \in 1..Len(obs.seq) |-> <<obs.seq[i].id, obs.seq[i].route>>]
 C18_seq_prefix(prev, step)    == IsPrefix(SeqId(prev), SeqId(step.obs))
 C18_ctxs_prefix(prev, step)   == IsPrefix(prev.ctxs, step.obs.ctxs)
 C18_routes_prefix(prev, step) == IsPrefix(prev.routes, step.obs.routes)
+(* a record appended by a rerun is not started yet (no status): it still follows its staged entry *)
 C18_started_fixed(prev, step) ==
-  \A i \in 1..Len(prev.seq) : i <= Len(step.obs.seq) =>
+  \A i \in 1..Len(prev.seq) : (i <= Len(step.obs.seq) /\ prev.seq[i].st # "null") =>
      /\ prev.seq[i].ctxin = step.obs.seq[i].ctxin
      /\ prev.seq[i].prev  = step.obs.seq[i].prev
 C18_decided_fixed(prev, step) ==
